@@ -49,6 +49,7 @@ func defectCatalogue() []defect {
 		{"ctime-late", true, func(c *Ctx, s *testService, r *recipe, d time.Duration) { r.ctime = r.ctime.Add(-d - 3*time.Second) }},
 		{"ctime-early", true, func(c *Ctx, s *testService, r *recipe, d time.Duration) { r.ctime = r.ctime.Add(d + 3*time.Second) }},
 		{"ctime-inside", false, func(c *Ctx, s *testService, r *recipe, d time.Duration) { r.ctime = r.ctime.Add(d - 3*time.Second) }},
+		{"unsealed-trailer", false, func(c *Ctx, s *testService, r *recipe, d time.Duration) { r.trailer = true }},
 		{"multi-component-client", false, func(c *Ctx, s *testService, r *recipe, d time.Duration) {
 			r.cname = []string{"host", "client.test.gokrb5"}
 			r.authCName = r.cname
@@ -221,6 +222,14 @@ func c01(c *Ctx) {
 				run(et, settingsList[c.R.Intn(len(settingsList))], []int{di}, c.R.Intn(4), "single-settings")
 			}
 		}
+		// unsealed optional fields after enc-part: with no sealed addresses / start time they must stay absent
+		if ti := defectIndex(cat, "unsealed-trailer"); ti >= 0 {
+			for _, sk := range skews {
+				run(et, svcSettings{skew: sk, requireAddr: true, clientAddr: &addrA}, []int{ti}, 0, "trailer-addr")
+			}
+			run(et, svcSettings{skew: 5 * time.Minute, clientAddr: &addrA}, []int{ti}, 3, "trailer-addr-other")
+			run(et, base, []int{ti, defectIndex(cat, "start-absent")}, 0, "trailer-start")
+		}
 		// pairs of defects
 		nPairs := 25
 		if !c.Quick() {
@@ -264,6 +273,15 @@ var defectField = map[string]string{"start-outside": "start", "start-inside": "s
 	"flip-ticket": "tktcipher", "trunc-ticket": "tktcipher", "flip-auth": "authcipher", "trunc-auth": "authcipher",
 	"cname-mismatch": "authcname", "cname-prefix": "authcname", "multi-component-client": "authcname", "invalid-flag": "flags", "other-flags": "flags",
 	"ctime-late": "ctime", "ctime-early": "ctime", "ctime-inside": "ctime", "wrong-key": "tktkey", "auth-key": "authkey"}
+
+func defectIndex(cat []defect, name string) int {
+	for i := range cat {
+		if cat[i].name == name {
+			return i
+		}
+	}
+	return -1
+}
 
 func containsDefect(cat []defect, defs []int, name string) bool {
 	for _, di := range defs {
